@@ -1,4 +1,5 @@
 import AthlibVerif.Lemmas.Winner
+import AthlibVerif.Lemmas.Consec
 /-!
 # Attempts per height: three, one in a jump-off
 
@@ -187,5 +188,95 @@ theorem step_LimInv (c : Comp) (op : Op) (hw : WF c) (h : LimInv c) : LimInv (st
       rw [rank_eq_tail]
       exact rankTail_LimInv _ (rankj_WF _ hwL) (rankj_LimInv _ hwL hL)
     · rw [h1]; exact h
+
+/-! ## who comes back after being out -/
+
+/-- record by record: the same athlete, either with the flags and limit of before or back in with a single attempt -/
+def BackRel (k k' : Jumper) : Prop :=
+  k'.bib = k.bib ∧ ((k'.eliminated = k.eliminated ∧ k'.roundLim = k.roundLim) ∨ (k'.roundLim = 1 ∧ k'.eliminated = false))
+
+theorem backRel_stable : RankStable BackRel where
+  refl := fun j => ⟨rfl, Or.inl ⟨rfl, rfl⟩⟩
+  trans := by
+    intro a b c ⟨hb1, h1⟩ ⟨hb2, h2⟩
+    refine ⟨hb2.trans hb1, ?_⟩
+    rcases h2 with ⟨e1, e2⟩ | h2
+    · rcases h1 with ⟨f1, f2⟩ | ⟨f1, f2⟩
+      · exact Or.inl ⟨e1.trans f1, e2.trans f2⟩
+      · exact Or.inr ⟨e2.trans f1, e1.trans f2⟩
+    · exact Or.inr h2
+  place := fun j p => ⟨rfl, Or.inl ⟨rfl, rfl⟩⟩
+  reinst := fun j => ⟨rfl, Or.inr ⟨rfl, rfl⟩⟩
+
+theorem same_bib_eq (c : Comp) (hw : WF c) (a b : Jumper) (ha : a ∈ c.jumpers) (hb : b ∈ c.jumpers) (h : a.bib = b.bib) : a = b := by
+  have h1 := find_of_mem c hw.1 a ha
+  have h2 := find_of_mem c hw.1 b hb
+  rw [h] at h1
+  rw [h1] at h2
+  exact Option.some.inj h2
+
+theorem find_none_bib (c : Comp) (b : Nat) (h : c.find b = none) : ∀ k ∈ c.jumpers, k.bib ≠ b := by
+  intro k hk hb
+  unfold Comp.find at h
+  have := List.find?_eq_none.1 h k hk
+  simp [hb] at this
+
+/-- **Whoever comes back after being out comes back with a single attempt per height**: an athlete who was out before
+    a call and is in after it has attempt limit 1 (and, with `LimInv`, the competition is then not in its regular
+    phases). -/
+theorem step_back (c : Comp) (op : Op) (hw : WF c) (j j' : Jumper) (hj : j ∈ c.jumpers)
+    (hj' : j' ∈ (step c op).1.jumpers) (hb : j'.bib = j.bib) (he : j.eliminated = true) (he' : j'.eliminated = false) :
+    j'.roundLim = 1 := by
+  cases op with
+  | add b =>
+    rw [step_add] at hj'
+    split at hj'
+    · next hc =>
+      exfalso
+      simp only [addResult, List.mem_append, List.mem_singleton] at hj'
+      rcases hj' with h | h
+      · have := same_bib_eq c hw j' j h hj hb
+        rw [this, he] at he'; cases he'
+      · have : j'.bib = b := by rw [h]
+        exact find_none_bib c b hc.2 j hj (by rw [← hb, this])
+    · have := same_bib_eq c hw j' j hj' hj hb
+      rw [this, he] at he'; cases he'
+  | bar x =>
+    rw [step_bar] at hj'
+    split at hj'
+    · exfalso
+      simp only [barResult] at hj'
+      obtain ⟨k, hk, rfl⟩ := List.mem_map.1 hj'
+      have hkb : k.bib = j.bib := by rw [← hb]; split <;> rfl
+      have hkj := same_bib_eq c hw k j hk hj hkb
+      subst hkj
+      simp [he] at he'
+    · have := same_bib_eq c hw j' j hj' hj hb
+      rw [this, he] at he'; cases he'
+  | trial b t =>
+    rcases step_trial c b t with ⟨ja, ja', hfd, _, _, hact, hs⟩ | ⟨h1, _⟩
+    · rw [hs] at hj'
+      change j' ∈ (rank (logTrial c b t ja')).jumpers at hj'
+      obtain ⟨hea, _, _⟩ := act_some ja ja' _ _ t hact
+      obtain ⟨hma, hba⟩ := find_some_mem c b ja hfd
+      have hwL : WF (logTrial c b t ja') :=
+        WF_of_same_bibs c (logTrial c b t ja') (by simp [update_bibs]) (List.Perm.refl _) hw
+      obtain ⟨k, hk, hkb, hrel⟩ := rank_relG backRel_stable (logTrial c b t ja') hwL j' hj'
+      -- k is j itself: the actor was not out, so j is another record and was left alone by the update
+      have hkm : k = ja' ∨ k ∈ c.jumpers := mem_update_cases c ja' k (by simpa using hk)
+      have hkj : k = j := by
+        rcases hkm with e | e
+        · exfalso
+          have hjab : ja'.bib = ja.bib := by rw [act_core ja ja' _ _ t hact, actCore_bib]
+          have : j = ja := same_bib_eq c hw j ja hj hma (by rw [← hb, hkb, e, hjab])
+          rw [this, hea] at he; cases he
+        · exact same_bib_eq c hw k j e hj (by rw [← hkb, hb])
+      subst hkj
+      rcases hrel with ⟨e1, _⟩ | ⟨e1, _⟩
+      · rw [e1, he] at he'; cases he'
+      · exact e1
+    · rw [h1] at hj'
+      have := same_bib_eq c hw j' j hj' hj hb
+      rw [this, he] at he'; cases he'
 
 end AthlibVerif.HJ
